@@ -124,7 +124,8 @@ func hull(a, b ival) ival {
 type lenContract struct {
 	Res, Err int
 	ArgEq    int   // result length == int argument #ArgEq (callee-parameter index, receiver = 0); -1 if none
-	MinLen   int64 // result length ≥ MinLen
+	MinLen   int64 // result length ≥ MinLen (≥ min(argument, MinLen) when MinArg is set)
+	MinArg   int   // 1 + callee-parameter index of the int argument that may undercut MinLen; 0 = none
 	Trusted  bool
 }
 
@@ -911,6 +912,23 @@ func (e *E3) rngPhi(phi *ssa.Phi, tr ival) ival {
 				visit(ed, depth+1, seen)
 			}
 			return
+		}
+		// v = (another phi of the same web) + c: a step by c on top of whatever flows into that phi
+		// (the counter of an inner loop: i1 = φ(i0', i1 + 1))
+		if a != nil && len(a.Terms) == 1 {
+			for k, cf := range a.Terms {
+				if p2, ok := k.(*ssa.Phi); ok && cf == 1 && p2 != phi && isIntType(p2.Type()) {
+					if a.C < 0 {
+						incOK = false
+					}
+					if a.C > 0 {
+						decOK = false
+					}
+					hasStep = true
+					visit(p2, depth+1, seen)
+					return
+				}
+			}
 		}
 		r := e.rng(v)
 		if init == nil {
@@ -1731,8 +1749,16 @@ func (g *factGraph) lenFacts(t termT, d int) {
 			g.touch(a, d+1)
 			g.eq(a, t, 0)
 		}
-		if con.MinLen > 0 {
+		if con.MinLen > 0 && con.MinArg == 0 {
 			g.add(t, zeroT, -con.MinLen)
+		}
+		if con.MinLen > 0 && con.MinArg > 0 && con.MinArg-1 < len(args) {
+			// len ≥ min(arg, K): usable when the argument is known to be at least K here
+			a := e.termOf(args[con.MinArg-1])
+			g.touch(a, d+1)
+			if lo := e.rng(args[con.MinArg-1]).lo; lo >= con.MinLen {
+				g.add(t, zeroT, -con.MinLen)
+			}
 		}
 	case *ssa.Call:
 		// single-result functions returning (a slice of) a parameter with a known relation: trim etc. → ≤ arg
@@ -2551,6 +2577,45 @@ func (e *E3) repoContract(f *ssa.Function) *lenContract {
 		if try(cand) {
 			e.contract[f] = cand
 			return cand
+		}
+	}
+	// "nil error ⇒ len(result) ≥ min(int parameter, K)": a reader wrapper that passes a full window through and
+	// accepts a short one at the end of the input only above a minimum size
+	tryMin := func(pi int, K int64) bool {
+		cand := &lenContract{Res: ri, Err: ei, ArgEq: -1, MinLen: K, MinArg: pi + 1}
+		e.contract[f] = nil
+		for _, ret := range rets {
+			errV := ret.Results[ei]
+			if e.definitelyNonNil(errV, ret.Block()) {
+				continue
+			}
+			if isNilConst(ret.Results[ri]) {
+				return false
+			}
+			lt := termT{v: e.lenBase(ret.Results[ri]), len: true}
+			g := e.newGraph(ret.Block())
+			g.conds = append(g.conds, nilAssumption(errV)...)
+			g.nodes[zeroT] = true
+			g.touch(lt, 0)
+			pt := e.termOf(f.Params[pi])
+			g.touch(pt, 0)
+			g.condFacts()
+			if g.shortest(lt, zeroT) <= -K || g.shortest(lt, pt) <= 0 {
+				continue
+			}
+			return false
+		}
+		e.contract[f] = cand
+		return true
+	}
+	for i, prm := range f.Params {
+		if !isIntType(prm.Type()) {
+			continue
+		}
+		for K := int64(8); K >= 1; K-- {
+			if tryMin(i, K) {
+				return e.contract[f]
+			}
 		}
 	}
 	e.contract[f] = nil
